@@ -247,3 +247,49 @@ package aggregate
 //@   at labels.(*Builder).Del #1 assert[C04] grouping-labels-deleted: sameslice($ns, grouping)
 //@   at labels.(*Builder).Del #2 assert[C04,C19] metric-name-deleted: len($ns) == 1 && $ns[0] == "__name__"
 //@   at labels.(*Builder).Keep assert[C04] grouping-labels-kept: sameslice($ns, grouping)
+
+// ---- scalar_table.go: the grouped table of one step (C04, C07, C13, C18) --------------------------
+// Table invariant: one accumulator per output series, output ids dense, every input series mapped to
+// an output. aggregate(arg, vector) evaluates ONE step: it resets every accumulator with the step's
+// parameter first (no carry-over from the step that used this table before), stamps the table with
+// the step's time and adds every sample to the accumulator of its series' group. toVector emits, in
+// output order, the groups that have a value.
+//@ extern field:execution/aggregate.accumulator.Reset(arg)
+//@ extern field:execution/aggregate.accumulator.AddFunc(v)
+//@ extern field:execution/aggregate.accumulator.HasValue() r
+//@ extern field:execution/aggregate.accumulator.ValueFunc() r
+//@ pred tableInv(t) = t != nil && len(t.accumulators) == len(t.outputs) &&
+//@     (forall j in 0..len(t.outputs) :: t.outputs[j] != nil && t.outputs[j].ID == j && t.accumulators[j] != nil &&
+//@         !isnil(t.accumulators[j].Reset) && !isnil(t.accumulators[j].AddFunc) && !isnil(t.accumulators[j].HasValue) && !isnil(t.accumulators[j].ValueFunc)) &&
+//@     (forall i in 0..len(t.inputs) :: t.inputs[i] < len(t.outputs))
+//@ func (*scalarTable).reset
+//@   requires tableInv(t)
+//@   assigns nothing
+//@   ghostvar nreset int = 0
+//@   after field:execution/aggregate.accumulator.Reset set nreset = nreset + 1
+//@   at field:execution/aggregate.accumulator.Reset assert[C04] reset-with-the-steps-parameter: $arg == arg
+//@   ensures[C04,C07] every-accumulator-reset: nreset == len(t.outputs)
+//@   loop 0 invariant tableInv(t) && nreset == rangeindex + 1
+//@ func (*scalarTable).addSample
+//@   requires tableInv(t) && sampleID < len(t.inputs)
+//@   assigns aggregate.scalarTable.timestamp
+//@   ensures[C04,C18] stamped: t.timestamp == ts
+//@   at field:execution/aggregate.accumulator.AddFunc assert[C04] sample-goes-to-the-accumulator-of-its-group: $v == sample
+//@ func (*scalarTable).aggregate
+//@   requires tableInv(t) && len(vector.SampleIDs) == len(vector.Samples) && (forall i in 0..len(vector.SampleIDs) :: vector.SampleIDs[i] < len(t.inputs))
+//@   assigns aggregate.scalarTable.timestamp
+//@   ensures[C04,C07,C18] stamped-with-the-step: t.timestamp == vector.T
+//@   at aggregate.(*scalarTable).reset assert[C04,C07] reset-before-anything-is-added: $arg == arg && ncalls("aggregate.(*scalarTable).addSample") == 0
+//@   at aggregate.(*scalarTable).addSample assert[C04] every-sample-added-with-its-own-series: $ts == vector.T && $sampleID == vector.SampleIDs[i] && $sample == vector.Samples[i]
+//@   ghostvar nadded int = 0
+//@   after aggregate.(*scalarTable).addSample set nadded = nadded + 1
+//@   ensures[C04] every-sample-added: ncalls("aggregate.(*scalarTable).reset") == 1 && nadded == len(vector.Samples)
+//@   loop 0 invariant tableInv(t) && nadded == rangeindex + 1 && (rangeindex + 1 == 0 || t.timestamp == vector.T) && t.timestamp == vector.T
+//@ func (*scalarTable).toVector
+//@   requires tableInv(t) && pool != nil && preexisting(t.inputs)
+//@   assigns nothing
+//@   ensures[C04,C18] stamped: result.T == t.timestamp
+//@   ensures[C04,C18] ids-index-the-output-series: len(result.SampleIDs) == len(result.Samples) && (forall j in 0..len(result.SampleIDs) :: result.SampleIDs[j] < len(t.outputs))
+//@   at line "result.SampleIDs = append(result.SampleIDs, v.ID)" assert[C04] only-groups-with-a-value-are-emitted: callres("field:execution/aggregate.accumulator.HasValue", ncalls("field:execution/aggregate.accumulator.HasValue")) && v.ID == i
+//@   loop 0 invariant tableInv(t) && preexisting(t.inputs) && result.T == t.timestamp && len(result.SampleIDs) == len(result.Samples) && fresh(result.SampleIDs) && fresh(result.Samples) &&
+//@       (forall j in 0..len(result.SampleIDs) :: result.SampleIDs[j] < len(t.outputs))
